@@ -1,0 +1,16 @@
+//go:build verif
+// +build verif
+
+package vm
+
+// Observation hooks for the verification harness in /verif (build tag "verif").
+// They only read VM state; with the tag off this file is not compiled.
+
+// Memory returns the VM's running count of allocated collection elements.
+func (vm *VM) Memory() int { return vm.memory }
+
+// Limit returns the memory budget the last run started with.
+func (vm *VM) Limit() int { return vm.limit }
+
+// ScopeDepth returns the number of open loop scopes.
+func (vm *VM) ScopeDepth() int { return len(vm.scopes) }
